@@ -26,11 +26,72 @@ class FileInfo:
         self.rel = rel
         self.text = text
         try:
-            self.tree = ast.parse(text, filename=rel)
+            self.raw_tree = ast.parse(text, filename=rel)
         except SyntaxError as e:  # pragma: no cover
             raise AnalysisError(f"{rel}: does not parse: {e}") from None
+        self.tree = self.raw_tree
         self.defs: dict[str, ast.AST] = {}
         self._annotate()
+        self.raw_defs = self.defs
+        self.inlined_artefacts: set[str] = set()
+        self.clean_tree = ast.parse(text, filename=rel)    # un-annotated: source of callee bodies for the inliner
+        self.clean_funcs = {s.name: s for s in self.clean_tree.body if isinstance(s, ast.FunctionDef)}
+
+    def normalise(self, model) -> None:
+        """Build the normalised tree the rules work on (see tiv/normalize.py); the raw tree stays in raw_tree."""
+        import copy
+
+        from .normalize import is_artefact, normalize_function
+
+        new = ast.parse(self.text, filename=self.rel)      # fresh, un-annotated copy (no parent links -> cheap deep copies)
+        inlined: set[str] = set()
+
+        def process(container, owner_cls):
+            for i, st in enumerate(container):
+                if isinstance(st, ast.ClassDef):
+                    raw_cls = st
+                    process(st.body, raw_cls)
+                elif isinstance(st, (ast.FunctionDef,)):
+                    nf, inl = normalize_function(model, self.rel, st, owner_cls)
+                    inlined.update(inl)
+                    # nested baseline closures: inline artefacts inside them too
+                    for n in ast.walk(nf):
+                        if isinstance(n, ast.FunctionDef) and n is not nf:
+                            from .normalize import Inliner
+                            il = Inliner(model, self.rel, owner_cls)
+                            il.run(n)
+                            inlined.update(il.inlined)
+                    container[i] = nf
+        process(new.body, None)
+        # sequential statement numbering (ordering by lineno stays meaningful after inlining); real lines in _srcline
+        for n in ast.walk(new):
+            if hasattr(n, "lineno"):
+                n._srcline = n.lineno
+        counter = [0]
+
+        def number(stmts):
+            for st in stmts:
+                counter[0] += 1
+                ln = counter[0]
+                for x in ast.walk(st):
+                    if hasattr(x, "lineno") and not isinstance(x, ast.stmt):
+                        x.lineno = ln
+                st.lineno = ln
+                for f in ("body", "orelse", "finalbody"):
+                    v = getattr(st, f, None)
+                    if isinstance(v, list) and v and isinstance(v[0], ast.stmt):
+                        number(v)
+                if isinstance(st, ast.Try):
+                    for h in st.handlers:
+                        counter[0] += 1
+                        h.lineno = counter[0]
+                        number(h.body)
+                st.end_lineno = counter[0]
+        number(new.body)
+        self.tree = new
+        self.defs = {}
+        self._annotate()
+        self.inlined_artefacts = {q for q, d in self.defs.items() if isinstance(d, ast.FunctionDef) and d.name in inlined and is_artefact(self.rel, d)}
 
     def _annotate(self) -> None:
         tree = self.tree
@@ -59,7 +120,7 @@ class FileInfo:
 
 
 class Model:
-    def __init__(self, repo: str | None = None, overlay: dict[str, str] | None = None):
+    def __init__(self, repo: str | None = None, overlay: dict[str, str] | None = None, raw: bool = False):
         self.repo = repo or REPO
         self.root = os.path.join(self.repo, PKG)
         if not os.path.isdir(self.root):
@@ -78,6 +139,9 @@ class Model:
         for rel in overlay:
             if rel not in self.files:
                 self.files[rel] = FileInfo(rel, overlay[rel])
+        if not raw:
+            for f in self.files.values():
+                f.normalise(self)
 
     # -- lookup -----------------------------------------------------------------
     def file(self, rel: str) -> FileInfo:
@@ -108,9 +172,11 @@ class Model:
         return out
 
     def functions(self):
+        """All function definitions of the (normalised) model; extracted helpers that were inlined at their call sites
+        are not repeated as stand-alone functions."""
         for rel, f in self.files.items():
             for q, n in f.defs.items():
-                if isinstance(n, FUNC):
+                if isinstance(n, FUNC) and q not in f.inlined_artefacts:
                     yield rel, q, n
 
     def classes(self):
@@ -126,7 +192,7 @@ class Model:
 
     # -- presentation ----------------------------------------------------------
     def loc(self, node) -> str:
-        return f"{PKG}/{getattr(node, '_rel', '?')}:{getattr(node, 'lineno', 0)}"
+        return f"{PKG}/{getattr(node, '_rel', '?')}:{getattr(node, '_srcline', getattr(node, 'lineno', 0))}"
 
     def construct(self, node) -> str:
         """rel::qualified name of the innermost enclosing def/class of node."""
